@@ -70,6 +70,26 @@ func genCase(t *rapid.T) Case {
 		}
 		c.Params = append(c.Params, p)
 	}
+	// further portals with fewer / equally many / more parameters, bound before "p" is executed
+	no := rapid.SampledFrom([]int{0, 0, 1, 2, 3}).Draw(t, "nothers")
+	for i := 0; i < no && np <= 40; i++ {
+		k := rapid.IntRange(0, np+1).Draw(t, "other-nparams")
+		var ps []Param
+		for j := 0; j < k; j++ {
+			p := Param{}
+			switch rapid.IntRange(0, 3).Draw(t, "other-kind") {
+			case 0:
+				p.Null = true
+			case 1:
+				p.Fmt = 1
+				p.Raw = rapid.SliceOfN(rapid.Byte(), 0, 8).Draw(t, "other-raw")
+			default:
+				p.Raw = []byte(rapid.StringMatching(`other[a-z0-9]{0,6}`).Draw(t, "other-text"))
+			}
+			ps = append(ps, p)
+		}
+		c.Others = append(c.Others, ps)
+	}
 	nd := rapid.IntRange(0, 6).Draw(t, "ndeclared")
 	c.Declared = []uint32{}
 	for i := 0; i < nd; i++ {
